@@ -125,7 +125,7 @@ func TestC05(t *testing.T) {
 		st.Note("matrix", fmt.Sprintf("all ordered pairs of %d pooled operands x 6 operators, enumerated completely over the shards", len(ops)))
 	})
 	// random operands: node-sets as paths over generated documents
-	runProp(t, "random", 12000, 1000000, func(t *rapid.T) {
+	runProp(t, "random", 96000, 1000000, func(t *rapid.T) {
 		c, p := genDocCase(t, caseOpts{cfg: xmodel.GenCfg{MaxDepth: 3, MaxKids: 4, Numeric: true, NoNS: true, Names: []string{"a", "b", "c"}}, vars: true, nodeVars: true},
 			func(g *xast.G, p *prepared) *xast.Expr {
 				operand := func(label string) *xast.Expr {
